@@ -13,7 +13,7 @@ type dtlcpStack struct{}
 
 // retransmission timer: nothing is lost on the in-memory transport, so it should never fire;
 // it is kept well above scheduling delays of a loaded machine
-const rto = 2 * time.Second
+const rto = 6 * time.Second
 
 func dtlcpCert(l *pki.Leaf) *dtlcp.Certificate {
 	return &dtlcp.Certificate{Certificate: [][]byte{l.DER}, PrivateKey: l.Key}
